@@ -56,7 +56,7 @@ def run(prop, tier, verdict):
     exhaustive = tier == 'thorough'
     if not exhaustive:
         rnd = random.Random(seedv)
-        few = lambda s: s['cfg'].get('wret') == 'late' or s['cfg'].get('kind') == 'badtype'     # few: always replayed
+        few = lambda s: s['cfg'].get('wret') == 'late' or s['cfg'].get('kind') == 'badtype' or s['cfg'].get('pre', 'none') != 'none'     # few: always replayed
         late = [s for s in scen if few(s)]
         scen = rnd.sample([s for s in scen if not few(s)], 3500) + late
     for i, s in enumerate(scen):
